@@ -452,6 +452,10 @@ impl VM {
                     eth.inner.replace(Some(val.clone()));
                     val
                 } else {
+                    // only the layer the dispatch field selects can be descended into
+                    if eth.get_ethertype_raw() != EtherTypes::Vlan {
+                        return Ok(Rc::new(Object::Null));
+                    }
                     // Borrow the inner object and return the cloned object
                     // immediately so the borrowing is kept to the scope of the
                     // if let statement. This allows us to borrow the inner object
@@ -476,6 +480,10 @@ impl VM {
                     eth.inner.replace(Some(val.clone()));
                     val
                 } else {
+                    // only the layer the dispatch field selects can be descended into
+                    if eth.get_ethertype_raw() != EtherTypes::Ipv4 {
+                        return Ok(Rc::new(Object::Null));
+                    }
                     if let Some(inner) = eth.inner.borrow().as_ref() {
                         return Ok(inner.clone());
                     }
@@ -498,6 +506,10 @@ impl VM {
                     eth.inner.replace(Some(val.clone()));
                     val
                 } else {
+                    // only the layer the dispatch field selects can be descended into
+                    if eth.get_ethertype_raw() != EtherTypes::Ipv6 {
+                        return Ok(Rc::new(Object::Null));
+                    }
                     if let Some(inner) = eth.inner.borrow().as_ref() {
                         return Ok(inner.clone());
                     }
@@ -588,6 +600,10 @@ impl VM {
                     vlan.inner.replace(Some(val.clone()));
                     val
                 } else {
+                    // only the layer the dispatch field selects can be descended into
+                    if vlan.get_ethertype_raw() != EtherTypes::Vlan {
+                        return Ok(Rc::new(Object::Null));
+                    }
                     // Borrow the inner object and return the cloned object
                     // immediately so the borrowing is kept to the scope of the
                     // if let statement. This allows us to borrow the inner object
@@ -613,6 +629,10 @@ impl VM {
                     vlan.inner.replace(Some(val.clone()));
                     val
                 } else {
+                    // only the layer the dispatch field selects can be descended into
+                    if vlan.get_ethertype_raw() != EtherTypes::Ipv4 {
+                        return Ok(Rc::new(Object::Null));
+                    }
                     if let Some(inner) = vlan.inner.borrow().as_ref() {
                         return Ok(inner.clone());
                     }
@@ -635,6 +655,10 @@ impl VM {
                     vlan.inner.replace(Some(val.clone()));
                     val
                 } else {
+                    // only the layer the dispatch field selects can be descended into
+                    if vlan.get_ethertype_raw() != EtherTypes::Ipv6 {
+                        return Ok(Rc::new(Object::Null));
+                    }
                     if let Some(inner) = vlan.inner.borrow().as_ref() {
                         return Ok(inner.clone());
                     }
@@ -812,6 +836,10 @@ impl VM {
                     ipv4.inner.replace(Some(val.clone()));
                     val
                 } else {
+                    // only the layer the dispatch field selects can be descended into
+                    if ipv4.get_protocol_raw() != Protocols::Udp {
+                        return Ok(Rc::new(Object::Null));
+                    }
                     if let Some(inner) = ipv4.inner.borrow().as_ref() {
                         return Ok(inner.clone());
                     }
@@ -832,6 +860,10 @@ impl VM {
                     ipv4.inner.replace(Some(val.clone()));
                     val
                 } else {
+                    // only the layer the dispatch field selects can be descended into
+                    if ipv4.get_protocol_raw() != Protocols::Tcp {
+                        return Ok(Rc::new(Object::Null));
+                    }
                     if let Some(inner) = ipv4.inner.borrow().as_ref() {
                         return Ok(inner.clone());
                     }
@@ -852,6 +884,10 @@ impl VM {
                     ipv4.inner.replace(Some(val.clone()));
                     val
                 } else {
+                    // only the layer the dispatch field selects can be descended into
+                    if ipv4.get_protocol_raw() != Protocols::Ipv6 {
+                        return Ok(Rc::new(Object::Null));
+                    }
                     if let Some(inner) = ipv4.inner.borrow().as_ref() {
                         return Ok(inner.clone());
                     }
@@ -980,6 +1016,10 @@ impl VM {
                     ipv6.inner.replace(Some(val.clone()));
                     val
                 } else {
+                    // only the layer the dispatch field selects can be descended into
+                    if ipv6.get_next_header_raw() != NextHeaders::Udp {
+                        return Ok(Rc::new(Object::Null));
+                    }
                     if let Some(inner) = ipv6.inner.borrow().as_ref() {
                         return Ok(inner.clone());
                     }
@@ -1000,6 +1040,10 @@ impl VM {
                     ipv6.inner.replace(Some(val.clone()));
                     val
                 } else {
+                    // only the layer the dispatch field selects can be descended into
+                    if ipv6.get_next_header_raw() != NextHeaders::Tcp {
+                        return Ok(Rc::new(Object::Null));
+                    }
                     if let Some(inner) = ipv6.inner.borrow().as_ref() {
                         return Ok(inner.clone());
                     }
